@@ -5,6 +5,8 @@ import (
 	"strings"
 	"sync/atomic"
 
+	"github.com/cossacklabs/acra/sqlparser"
+
 	"verif/par"
 	"verif/sqlgen"
 )
@@ -35,6 +37,7 @@ func identMenu() []identEntry {
 		{"valid-2-and-3-byte-utf8", "\xc3\xa9\xe2\x82\xac"},
 		{"valid-4-byte-utf8", "x\xf0\x9f\x98\x80"},
 		{"utf8-replacement-char", "a\xef\xbf\xbdo"},
+		{"astral-rune-whose-low-16-bits-are-a-letter", "x\xf0\x90\x81\x81"}, // U+10041
 		{"double-quote-inside", `a"b`},
 		{"backtick-inside", "a`b"},
 		{"single-quote-inside", "a'b"},
@@ -151,6 +154,44 @@ func identTemplates() []string {
 	}
 }
 
+// identAliasTemplates: the positions in which MySQL also accepts a string-quoted alias
+// ('..' always, ".." outside ANSI_QUOTES mode). Acra's grammar is more lenient and takes
+// string-quoted tokens in other identifier positions too; MySQL itself rejects those
+// statements, they are not part of the space.
+func identAliasTemplates() []string {
+	return []string{
+		"select a as {} from t",
+		"select a {} from t",
+		"select a as {}, b as {} from t",
+		"select count(*) as {} from t group by a",
+		"select a from t as {}",
+		"select a from t {}",
+		"select s.a from (select a from u) as {}",
+		"select a from t join u as {} on t.a = u.a",
+		"insert into t (a) values (1) returning a as {}",
+	}
+}
+
+// stringQuotedStyle: the style writes identifiers the way the dialect writes strings.
+func stringQuotedStyle(st identStyle) bool {
+	return st.Quote == '\'' || (st.Quote == '"' && sqlgen.Current == sqlgen.MySQL)
+}
+
+// bareable: MySQL identifiers that need no quotes (the printer drops backticks that are not
+// needed; MySQL does not fold the case of unquoted identifiers, so nothing changes).
+func bareable(raw string) bool {
+	if raw == "" || (raw[0] >= '0' && raw[0] <= '9') {
+		return false
+	}
+	for i := 0; i < len(raw); i++ {
+		c := raw[i]
+		if !(c == '_' || c == '$' || (c >= '0' && c <= '9') || (c >= 'a' && c <= 'z') || (c >= 'A' && c <= 'Z')) {
+			return false
+		}
+	}
+	return true
+}
+
 // identPairTemplates: {1} and {2} are two different identifiers of the menu.
 func identPairTemplates() []string {
 	return []string{
@@ -162,40 +203,28 @@ func identPairTemplates() []string {
 	}
 }
 
-// identLex reads the quoted identifiers (quote byte q, embedded quote doubled) of a text,
-// skipping single-quoted strings when q is not the single quote.
-func identLex(text string, q byte) []string {
+// identLex reads the quoted identifiers of a text in one pass: a token opened by one of the
+// bytes in idQuotes is an identifier (embedded quote doubled), a token opened by one of the
+// bytes in strQuotes is a string (quote doubled, backslash escapes the next byte) and is
+// skipped.
+func identLex(text string, idQuotes, strQuotes string) []string {
 	var out []string
 	for i := 0; i < len(text); i++ {
 		c := text[i]
-		if c == '\'' && q != '\'' {
-			// skip a string literal ('' doubles; a backslash escapes the next byte)
-			i++
-			for i < len(text) {
-				if text[i] == '\\' && i+1 < len(text) {
-					i += 2
-					continue
-				}
-				if text[i] == '\'' {
-					if i+1 < len(text) && text[i+1] == '\'' {
-						i += 2
-						continue
-					}
-					break
-				}
-				i++
-			}
-			continue
-		}
-		if c != q {
+		isID, isStr := strings.IndexByte(idQuotes, c) >= 0, strings.IndexByte(strQuotes, c) >= 0
+		if !isID && !isStr {
 			continue
 		}
 		var b []byte
 		i++
 		for i < len(text) {
-			if text[i] == q {
-				if i+1 < len(text) && text[i+1] == q {
-					b = append(b, q)
+			if isStr && text[i] == '\\' && i+1 < len(text) {
+				i += 2
+				continue
+			}
+			if text[i] == c {
+				if i+1 < len(text) && text[i+1] == c {
+					b = append(b, c)
 					i += 2
 					continue
 				}
@@ -204,9 +233,52 @@ func identLex(text string, q byte) []string {
 			b = append(b, text[i])
 			i++
 		}
-		out = append(out, string(b))
+		if isID {
+			out = append(out, string(b))
+		}
 	}
 	return out
+}
+
+// identQuoteSets: which quote bytes open identifiers / strings in the installed dialect.
+func identQuoteSets() (idQuotes, strQuotes string) {
+	if sqlgen.Current == sqlgen.MySQL {
+		return "`", "'\""
+	}
+	return "`\"", "'"
+}
+
+// identBytesCheck: every quoted identifier of the received text (read by identLex) occurs in
+// the sent text as often as in the received one. In the MySQL dialects an identifier that
+// needs no quotes may be printed without them.
+func identBytesCheck(col *sqlgen.Collector, c caseT, t sqlparser.Statement) string {
+	sent, pp := sqlgen.Print(t)
+	if pp != "" {
+		return oOK
+	}
+	col.Eval(1)
+	// (the printer may choose the dialect's own identifier quote: ANSI mode prints a backtick
+	// identifier in double quotes; identLex reads both kinds)
+	idq, strq := identQuoteSets()
+	recv, got := identLex(c.SQL, idq, strq), identLex(sent, idq, strq)
+	seen := map[string]bool{}
+	for _, raw := range recv {
+		if seen[raw] || (sqlgen.IsMySQL() && bareable(raw)) {
+			continue
+		}
+		seen[raw] = true
+		if n, m := count(recv, raw), count(got, raw); n != m {
+			style := "double-quoted"
+			if strings.Contains(c.SQL, "`") {
+				style = "backtick"
+			}
+			col.Violation("C13/idents/identifier-bytes-altered/"+style,
+				fmt.Sprintf("[%s] a quoted identifier reaches the database with other bytes: received %q, sent %q; identifier %q occurs %d times in the received and %d times in the sent text (quoted identifiers read: %q vs %q)",
+					c.Dialect, c.SQL, sent, raw, n, m, recv, got), c)
+			return "tree-differs"
+		}
+	}
+	return oOK
 }
 
 type identJob struct {
@@ -223,13 +295,29 @@ func identJobs(thorough bool) []identJob {
 	menu, styles := identMenu(), identStyles()
 	for ti, t := range identTemplates() {
 		for _, st := range styles {
+			if stringQuotedStyle(st) {
+				continue
+			}
 			for _, e := range menu {
 				jobs = append(jobs, identJob{sql: strings.ReplaceAll(t, "{}", st.quote(e.Raw)), style: st, raws: []string{e.Raw}, tmpl: ti, entry: e.Name})
 			}
 		}
 	}
+	for ti, t := range identAliasTemplates() {
+		for _, st := range styles {
+			if !stringQuotedStyle(st) {
+				continue
+			}
+			for _, e := range menu {
+				jobs = append(jobs, identJob{sql: strings.ReplaceAll(t, "{}", st.quote(e.Raw)), style: st, raws: []string{e.Raw}, tmpl: 1000 + ti, entry: e.Name})
+			}
+		}
+	}
 	for ti, t := range identPairTemplates() {
 		for _, st := range styles {
+			if stringQuotedStyle(st) {
+				continue
+			}
 			for i, a := range menu {
 				for j, b := range menu {
 					if i == j || (!thorough && (i+j)%3 != 0 && i > 5 && j > 5) {
@@ -251,6 +339,7 @@ func runIdents(expired func() bool, thorough bool, col *sqlgen.Collector) []stri
 	jobs := identJobs(thorough)
 	col.Info("idents_menu", len(identMenu()))
 	col.Info("idents_templates", len(identTemplates()))
+	col.Info("idents_string_quoted_alias_templates", len(identAliasTemplates()))
 	col.Info("idents_pair_templates", len(identPairTemplates()))
 	col.Info("idents_generated", len(jobs))
 	tl := newTally()
@@ -262,23 +351,12 @@ func runIdents(expired func() bool, thorough bool, col *sqlgen.Collector) []stri
 		out, t := roundTrip(col, c)
 		if t != nil && out == oOK {
 			observe(col, d, t, out)
-			// independent reading of the identifier bytes (not for the '..' alias form: in the
-			// MySQL dialects string-quoted tokens are compared by databaseReading, in PostgreSQL
-			// '..' is never an identifier)
-			if j.style.Quote != '\'' && !(j.style.Quote == '"' && d == sqlgen.MySQL) {
-				sent, _ := sqlgen.Print(t)
-				col.Eval(1)
+			// independent reading of the identifier bytes (not for the string-quoted alias forms:
+			// in the MySQL dialects string-quoted tokens are compared by databaseReading, in
+			// PostgreSQL '..' is never an identifier)
+			if !stringQuotedStyle(j.style) {
 				lexed.Add(1)
-				recv, got := identLex(j.sql, j.style.Quote), identLex(sent, j.style.Quote)
-				for _, raw := range j.raws {
-					if n, m := count(recv, raw), count(got, raw); n != m {
-						col.Violation("C13/idents/identifier-bytes-altered/"+j.style.Name,
-							fmt.Sprintf("[%s] a quoted identifier reaches the database with other bytes: received %q, sent %q; identifier %q occurs %d times in the received and %d times in the sent text (quoted identifiers read: %q vs %q)",
-								d, j.sql, sent, raw, n, m, recv, got), c)
-						out = "tree-differs"
-						break
-					}
-				}
+				out = identBytesCheck(col, c, t)
 			}
 			if out == oOK {
 				col.Distinct(fmt.Sprintf("%s|idents|template %d pair=%v|%s|%s", d, j.tmpl, j.pair, j.style.Name, j.entry))
